@@ -11,8 +11,10 @@ EXPLANATION = (
     "Every shipped Runge-Kutta / splitting class is instantiated and its real __call__ (hence step, compute_step, "
     "algebraic_system, get_error_estimate) executed on symbolic (t, h != 0 of either sign, y) with a right-hand side that returns "
     "fresh symbols K_i at its i-th call and records its arguments.  Obligations, one small query per right-hand-side call: the "
-    "i-th stage call is made at (t + c_i h, y + h*sum_j a_ij K_j) with c, A read from the class attributes; the returned increment "
-    "is h*sum_i b_i K_i; stage_values[..., i] = K_i; dTime = h; two consecutive calls are made so slope reuse is covered.  "
+    "for explicit classes the right-hand side is a congruent uninterpreted function and the oracle evaluates it itself: the stored stage slope K_i equals "
+    "f(t + c_i h, y + h*sum_j a_ij K_j) with c, A read from the class attributes (independent of how many evaluations the implementation makes - a stale cached "
+    "slope is a different symbol), the returned increment is h*sum_i b_i K_i, dTime is the attempted step; histories: two consecutive calls, and a call whose first "
+    "trial is rejected and whose retry is interrupted by an injected fault at several positions, followed by a repeated call.  "
     "Splitting schemes: call k is made at (t + h*sum_{j<k} a_j, y + dState_k) with drift components advanced by a_j and kick "
     "components by b_j.  Implicit classes: the real algebraic_system(K) equals K - f(t + c h, y + h A K) componentwise for symbolic K; "
     "with the verdict_root stub the returned increment is h*sum b_i K_i of the root handed back, and on every path on which "
@@ -49,6 +51,12 @@ def instances(tier):
                 continue
             out.append(dict(id="%s-%s" % (cls.__name__, "x".join(map(str, sh))), cls=cls.__name__, shape=list(sh),
                             mode="splitting" if symp else "explicit", budget=b))
+            if not symp and sh == (1,) and cls.__name__ not in ("RK1412Solver", "RK108Solver"):
+                stg = int(np.asarray(cls.tableau_intermediate).shape[0])
+                for off in sorted(set([0, 1, stg, stg + 2, 2 * stg + 1])):
+                    if quick_skip(tier, cls.__name__, off, stg):
+                        continue
+                    out.append(dict(id="%s-1-fault+%d" % (cls.__name__, off), cls=cls.__name__, shape=[1], mode="explicit_fault", fault_offset=off, budget=b))
     for cls in im:
         for sh in ([(1,)] if tier == "quick" else [(1,), (2,)]):
             if cls.__name__ == "RadauIIA19" and sh != (1,):
@@ -58,6 +66,12 @@ def instances(tier):
             out.append(dict(id="%s-%s-accept" % (cls.__name__, tag), cls=cls.__name__, shape=list(sh), mode="accept", budget=b))
         out.append(dict(id="%s-1-allfail" % cls.__name__, cls=cls.__name__, shape=[1], mode="allfail", budget=b))
     return out
+
+
+def quick_skip(tier, name, off, stg):
+    if tier != "quick":
+        return False
+    return name not in ("RK45CKSolver", "DOPRI45", "HeunEulerSolver", "RK4Solver", "EulerSolver") or off not in (1, stg + 2)
 
 
 def _get_cls(name):
@@ -96,56 +110,63 @@ def scenario(c, inst):
     scale = 1
     if not c.symbolic:
         scale = 64 * max(1.0, abs(float(h))) * max(1.0, float(np.max(np.abs(A))))
-    if mode == "explicit":
+    if mode in ("explicit", "explicit_fault"):
+        # congruent uninterpreted rhs: the oracle evaluates f itself at the defining stage points, so the check does not depend on
+        # how many evaluations the implementation makes or which cached slopes it legitimately reuses - a stale slope is a different symbol
+        if c.symbolic:
+            c.ackermann = False
         B = np.asarray(cls.tableau_final, dtype=np.float64)
         s = A.shape[0]
-        rhs = FreshRhs(c, shape)
+        rhs = FreshRhs(c, shape, name="f", mode="uf")
+        probe = FreshRhs(c, shape, name="f", mode="uf")
+        log = []
         if integ.is_adaptive:
-            integ.update_timestep = ctrl_stub(c, integ, max_redo=0)
-        tt, yy = t, y
-        for rep in range(2):
-            n0 = len(rhs.calls)
-            had_final = integ.final_rhs is not None
-            st, r = run(integ, rhs, tt, yy, {}, h)
-            if st == "exc":
-                c.check("c02.call%d.no_exception" % rep, False, info=repr(r))
-                return
-            new_h, (dT, dY) = r
-            calls = rhs.calls[n0:]
-            vals = rhs.values[n0:]
-            fsal_skip_final = bool(integ.is_fsal and integ.is_explicit)
-            expect = (0 if had_final else 1) + s + (0 if fsal_skip_final else 1)
-            c.check("c02.call%d.number_of_rhs_calls" % rep, len(calls) == expect, info=dict(got=len(calls), want=expect))
-            if len(calls) != expect:
-                return
-            off = 0 if had_final else 1
-            if not had_final:
-                c.check("c02.call%d.initial_slope_at_start" % rep, c.all([c.eq(calls[0][0], tt), _eqv(c, calls[0][1], yy)]))
-            K = vals[off:off + s]
+            # explicit_fault: the first trial of the second call is rejected, the retry is interrupted by a fault, the call is repeated
+            integ.update_timestep = ctrl_stub(c, integ, log, max_redo=(1 if mode == "explicit_fault" else 0))
+
+        def formula_checks(tag, tt, yy, hh, dT, dY):
+            K = [integ.stage_values[..., i] for i in range(s)]
             for i in range(s):
-                ti, yi = calls[off + i]
                 want_y = yy
                 for j in range(s):
                     if A[i, 1 + j] != 0.0:
-                        want_y = want_y + h * float(A[i, 1 + j]) * K[j]
-                c.check("c02.stage_time", c.eq(ti, tt + float(A[i, 0]) * h, scale), info=dict(stage=i))
-                c.check("c02.stage_state", _eqv(c, yi, want_y, scale), info=dict(stage=i))
-                c.check("c02.stage_values_stored", _eqv(c, integ.stage_values[..., i], K[i], scale), info=dict(stage=i))
+                        want_y = want_y + hh * float(A[i, 1 + j]) * K[j]
+                c.check("c02.stage_slope_is_f_at_stage_point", _eqv(c, K[i], probe(tt + float(A[i, 0]) * hh, want_y), scale), info=dict(stage=i, call=tag))
             want_dY = 0 * yy
             for i in range(s):
                 if B[0, 1 + i] != 0.0:
-                    want_dY = want_dY + h * float(B[0, 1 + i]) * K[i]
-            c.check("c02.increment_is_weighted_sum", _eqv(c, dY, want_dY, scale))
-            c.check("c02.dTime_is_h", c.eq(dT, h))
-            if not integ.is_adaptive:
-                c.check("c02.fixed_step_returns_h", c.eq(new_h, h))
-            if not fsal_skip_final:
-                tl, yl = calls[-1]
-                c.check("c02.final_slope_at_end", c.all([c.eq(tl, tt + h, scale), _eqv(c, yl, yy + dY, scale)]))
-            if had_final:
-                c.check("c02.initial_slope_reused_from_previous_end", integ.initial_rhs is prev_final)
-            prev_final = integ.final_rhs
-            tt, yy = tt + dT, yy + dY
+                    want_dY = want_dY + hh * float(B[0, 1 + i]) * K[i]
+            c.check("c02.increment_is_weighted_sum", _eqv(c, dY, want_dY, scale), info=dict(call=tag))
+
+        tt, yy = t, y
+        st, r = run(integ, rhs, tt, yy, {}, h)
+        if st != "ok":
+            c.check("c02.call0.no_exception", False, info=repr(r))
+            return
+        new_h, (dT, dY) = r
+        c.check("c02.dTime_is_attempted_step", c.eq(dT, h) if not log else c.eq(dT, log[-1]["dT"]))
+        formula_checks("first", tt, yy, dT, dT, dY)
+        if not integ.is_adaptive:
+            c.check("c02.fixed_step_returns_h", c.eq(new_h, h))
+        tt, yy = tt + dT, yy + dY
+        if mode == "explicit_fault":
+            rhs.fault_at = len(rhs.calls) + inst["fault_offset"]
+            st, r = run(integ, rhs, tt, yy, {}, h)
+            fired = len(rhs.calls) > rhs.fault_at
+            rhs.fault_at = None
+            c.note("fault_fired", fired)
+            if st == "ok":
+                new_h, (dT, dY) = r
+                formula_checks("second(no fault reached)", tt, yy, dT, dT, dY)
+                tt, yy = tt + dT, yy + dY
+        n_log = len(log)
+        st, r = run(integ, rhs, tt, yy, {}, h)
+        if st != "ok":
+            c.check("c02.call_after.no_exception", False, info=repr(r))
+            return
+        new_h, (dT, dY) = r
+        formula_checks("after", tt, yy, dT, dT, dY)
+        c.check("c02.dTime_is_attempted_step", c.eq(dT, h) if len(log) == n_log else c.eq(dT, log[-1]["dT"]))
         return
     if mode == "splitting":
         rhs = FreshRhs(c, shape)
@@ -185,25 +206,26 @@ def scenario(c, inst):
     B = np.asarray(cls.tableau_final, dtype=np.float64)
     s = A.shape[0]
     if mode == "residual":
-        rhs = FreshRhs(c, shape)
+        if c.symbolic:
+            c.ackermann = False
+        rhs = FreshRhs(c, shape, name="f", mode="uf")
+        probe = FreshRhs(c, shape, name="f", mode="uf")
         Ks = c.array([c.real("K%d" % i) for i in range(n * s)]).reshape(shape + (s,))
-        st, res = run(integ.algebraic_system, Ks.reshape(-1) if True else Ks, rhs, t, y, h, {})
+        st, res = run(integ.algebraic_system, Ks.reshape(-1), rhs, t, y, h, {})
         if st == "exc":
             c.check("c02.residual.no_exception", False, info=repr(res))
             return
-        c.check("c02.residual.number_of_rhs_calls", len(rhs.calls) == s)
-        if len(rhs.calls) != s:
+        ok_shape = int(np.prod(np.shape(res))) == n * s
+        c.check("c02.residual.one_entry_per_stage_and_component", ok_shape)
+        if not ok_shape:
             return
         res = np.asarray(res, dtype=object).reshape(shape + (s,)) if c.symbolic else np.asarray(res).reshape(shape + (s,))
         for i in range(s):
-            ti, yi = rhs.calls[i]
             want_y = y
             for j in range(s):
                 if A[i, 1 + j] != 0.0:
                     want_y = want_y + h * float(A[i, 1 + j]) * Ks[..., j]
-            c.check("c02.residual.stage_time", c.eq(ti, t + float(A[i, 0]) * h, scale), info=dict(stage=i))
-            c.check("c02.residual.stage_state", _eqv(c, yi, want_y, scale), info=dict(stage=i))
-            c.check("c02.residual.is_K_minus_f", _eqv(c, res[..., i], Ks[..., i] - rhs.values[i], scale), info=dict(stage=i))
+            c.check("c02.residual.is_K_minus_f_at_stage_point", _eqv(c, res[..., i], Ks[..., i] - probe(t + float(A[i, 0]) * h, want_y), scale), info=dict(stage=i))
         return
     rhs = FreshRhsWithJac(c, shape)
     log = []
@@ -236,5 +258,9 @@ def scenario(c, inst):
             want = want + dT * float(B[0, 1 + i]) * Kroot[..., i]
     c.check("c02.accept.increment_is_weighted_sum_of_returned_root", _eqv(c, dY, want, scale))
     c.check("c02.accept.stage_values_are_returned_root", _eqv(c, integ.stage_values, Kroot, scale))
+    # an implicit step may only be shortened (after a failed stage solve), never reversed or lengthened
+    c.check("c02.accept.accepted_step_has_sign_of_h_and_is_not_longer", c.all([c.lt(0, dT * h), c.le(dT * dT, h * h, 1)]), info=dict(solves=len(log)))
+    if all(e["success"] for e in log) and len(log) == 1:
+        c.check("c02.accept.first_solve_converged_means_full_step", c.eq(dT, h))
     # attempted step sizes: the first is h, later ones never larger in magnitude
     c.note("solves", len(log))
